@@ -198,10 +198,13 @@ def report_dev(ctx, bad, total):
 def witnesses(ctx):
     """Every open known finding has a witness history; it must still be classified as such by the extracted
     classifier and still deviate on the real implementation, then it is printed as KNOWN-FINDING."""
-    entries = [k for k in ctx.kf if k.get("witness")]
+    def wline(k):
+        w = k.get("witness")
+        return w.get("case") if isinstance(w, dict) else w
+    entries = [k for k in ctx.kf if k.get("kf_constructor") and wline(k)]
     if not entries:
         return set()
-    lines = [k["witness"] for k in entries]
+    lines = [wline(k) for k in entries]
     mm = ctx.stream("fileio-wit", "fileio", "fileio", replay_lines=lines)
     if mm is None:
         return set()
@@ -213,7 +216,7 @@ def witnesses(ctx):
     listed = set()
     with open(os.path.join(ctx.dir, "fileio-wit.observed")) as fo, open(kff) as fk:
         for e, o, k in zip(entries, fo, fk):
-            res = classify(e["witness"], o.rstrip("\n"), k.rstrip("\n"))
+            res = classify(wline(e), o.rstrip("\n"), k.rstrip("\n"))
             listed.add(e["id"])
             ok = any(hit == e["id"] and repro for (_, hit, repro, _) in res)
             if ok:
